@@ -190,8 +190,31 @@ def _last_value_in(stmts, name, fn, allow_calls):
             return v
         if isinstance(x, ast.If):
             return _merge_if(x, name, fn, allow_calls)
+        if isinstance(x, ast.Try):
+            return _merge_try(x, name, fn, allow_calls)
         return None
     return "NONE"
+
+
+def _merge_try(x, name, fn, allow_calls):
+    """Value of `name` after `try: A except E: H`: A's value when no handler can complete normally; when a handler that completes binds the
+    name as well, `h if __raised__(E) else a` (an opaque test: which of the two happened is not known statically). A handler that
+    completes without binding it, or a `finally` that binds it, makes the value ambiguous (None)."""
+    if any(isinstance(t, ast.Name) and t.id == name for s_ in x.finalbody for t, _ in stores_in(s_)):
+        return None
+    bv = _last_value_in(list(x.body) + list(x.orelse), name, fn, allow_calls)
+    if bv is None or bv == "NONE":
+        return None
+    out = bv
+    for h in reversed(x.handlers):
+        if _ends(h.body):
+            continue
+        hv = _last_value_in(h.body, name, fn, allow_calls)
+        if hv is None or hv == "NONE":
+            return None
+        test = ast.Call(func=ast.Name(id="__raised__", ctx=ast.Load()), args=[h.type] if h.type is not None else [], keywords=[])
+        out = ast.IfExp(test=test, body=hv, orelse=out)
+    return out
 
 
 def _merge_if(x, name, fn, allow_calls):
@@ -251,9 +274,18 @@ def reaching_definition(fn, name, use, allow_calls=False, _at_stmt=False):
             v = _value_bound_by(x, name)
             if v is None and isinstance(x, ast.If):
                 v = _merge_if(x, name, fn, allow_calls)
+            if v is None and isinstance(x, ast.Try):
+                v = _merge_try(x, name, fn, allow_calls)
             if v is None or not (allow_calls or is_pure(v)):
                 return None
             return v
+        if isinstance(par, ast.Try) and block is par.orelse:
+            # the `else:` clause of a try runs right after its body completed normally
+            v = _last_value_in(par.body, name, fn, allow_calls)
+            if v is None:
+                return None
+            if v != "NONE":
+                return v if (allow_calls or is_pure(v)) else None
         if isinstance(par, ast.ExceptHandler):
             par = getattr(par, "_p", None)
         if isinstance(par, (ast.With, ast.AsyncWith)):
@@ -517,6 +549,8 @@ def truth_nnf(e, neg=False):
         if not neg:
             return pos
         return mk(ast.And, [mk(ast.Or, [truth_nnf(e.test, True), truth_nnf(e.body, True)]), mk(ast.Or, [truth_nnf(e.test), truth_nnf(e.orelse, True)])])
+    if isinstance(e, ast.Call) and isinstance(e.func, ast.Name) and e.func.id == "bool" and len(e.args) == 1 and not e.keywords:
+        return truth_nnf(e.args[0], neg)
     if _falsy_const(e):
         return T if neg else F
     if _truthy_const(e):
@@ -769,6 +803,24 @@ def econds(fn, n):
             out.add(norm(t) if pos else f"not {norm(t)}")
     for t, b in guards(n):
         add(expand(fn, t), b)
+    return out
+
+
+def tconds(fn, n, keep=()):
+    """The conjuncts known to hold where n executes, from its guards *traced* (locals, helper results and merged branch values replaced
+    by where they come from), put in negation normal form (truth_nnf) and split at top-level conjunctions; walruses dropped.
+    Disjunctions stay whole. -> set of normalised source strings."""
+    from .astutil import guards
+
+    class _NoWalrus(ast.NodeTransformer):
+        def visit_NamedExpr(self, x):
+            return self.visit(x.value)
+    out = set()
+    for t, b in guards(n):
+        tt = truth_nnf(_NoWalrus().visit(clone(trace(fn, t, keep=keep))), neg=not b)
+        for v in (tt.values if isinstance(tt, ast.BoolOp) and isinstance(tt.op, ast.And) else [tt]):
+            if not (isinstance(v, ast.Constant) and v.value is True):
+                out.add(norm(v))
     return out
 
 
